@@ -135,10 +135,15 @@ func newFileChecker(pkg *PkgDef, output string, first uint64) *fileChecker {
 	if g, err := exec.NewOutputModuleGraph(output, true, pkg.Modules(), first); err == nil {
 		for _, m := range g.UsedModules() {
 			fc.names[g.ModuleHashes().Get(m.Name)] = m.Name
+			switch {
+			case m.GetKindMap() != nil:
+				fc.kinds[m.Name] = "map"
+			case m.GetKindStore() != nil:
+				fc.kinds[m.Name] = "store"
+			default:
+				fc.kinds[m.Name] = "index"
+			}
 		}
-	}
-	for _, m := range pkg.Mods {
-		fc.kinds[m.Spec.Name] = m.Spec.Kind
 	}
 	return fc
 }
